@@ -62,6 +62,7 @@ class Trace:
         self.requests = []  # B2
         self.packages = []  # B3
         self.effects = []  # execute_* calls
+        self.sim_responses = []  # SimulatedOrder.cancel / update results
         self.placements = []  # SimulatedOrder.place
         self.fragments = []  # _update_matched
         self.samples = collections.defaultdict(list)  # okey -> [sample]
@@ -412,6 +413,7 @@ def attach(tr):
                 finally:
                     rec["post"] = [sname(o.status) for o in order_package._orders]
                     rec["tpost"] = [o.trade.status.name for o in order_package._orders]
+                    rec["end_seq"] = TR.nseq()
                 TR.counters["effects"] += 1
                 return r
 
@@ -483,6 +485,20 @@ def attach(tr):
         return place
 
     _wrap(SimulatedOrder, "place", mk_place)
+
+    def mk_simresp(kind):
+        def maker(orig):
+            def f(self, *a, **kw):
+                resp = orig(self, *a, **kw)
+                TR.sim_responses.append({"seq": TR.nseq(), "tick": TR.tick, "kind": kind, "o": TR.okey(self.order), "status": resp.status, "error": resp.error_code, "size_cancelled": getattr(resp, "size_cancelled", None)})
+                return resp
+
+            return f
+
+        return maker
+
+    _wrap(SimulatedOrder, "cancel", mk_simresp("CANCEL"))
+    _wrap(SimulatedOrder, "update", mk_simresp("UPDATE"))
 
     def mk_um(orig):
         def _update_matched(self, data):
